@@ -11,6 +11,9 @@ type GTok struct {
 	Kind string // kw, unq (unquoted argument), sq, dq, plus, semi, lbrace, rbrace
 	Top  bool   // a keyword/`;`/`}` of a top-level statement
 	Pat  bool   // argument piece of a `pattern` statement
+	// After is written right behind the token, before the filler (a block comment with a pool character,
+	// see Sprinkle); it begins with a blank.
+	After string
 }
 
 var kwPool = []string{"a", "leaf", "pattern", "p:ext", "é", "x-y", "container", "b2", "\uFEFFk", "z\u200B", "pattern"}
@@ -135,6 +138,9 @@ func GenTokensOpt(r *rand.Rand, look bool) []GTok {
 		}
 		genStmt(r, 3, true, look, &out)
 	}
+	if r.Intn(4) == 0 {
+		Sprinkle(r, out)
+	}
 	return out
 }
 
@@ -171,6 +177,7 @@ func Render(r *rand.Rand, toks []GTok) (string, []int) {
 	for i, t := range toks {
 		offs[i] = sb.Len()
 		sb.WriteString(t.Text)
+		sb.WriteString(t.After)
 		f := fillers[r.Intn(len(fillers))]
 		if isUnq(t.Kind) {
 			if strings.HasPrefix(f, "/") {
@@ -422,6 +429,9 @@ func LongLines(r *rand.Rand, thorough bool) []Case {
 		"a 'p' + '" + strings.Repeat("q", n()) + "' { } /* é */\t",
 		strings.Repeat("\n", n()) + "\t/* c */ ",
 		strings.Repeat("\r\n", n()) + " é; ",
+		// supplementary-plane characters, every UTF-8 length class, combining marks: one column each
+		"/*" + strings.Repeat("\U0001F600", n()) + "*/ ",
+		"a '" + strings.Repeat("a\u07ff\u0800\uffff\U00010000\u0301\U00020000\u200b\U0010FFFF", n()/9) + "' /* \U0001D400 */ { } ",
 	}
 	if thorough {
 		// the list-based model is quadratic in the position for tokens read rune by rune: 10-30 s each
@@ -445,7 +455,7 @@ func LongLines(r *rand.Rand, thorough bool) []Case {
 	var out []Case
 	for pi, p := range pads {
 		for ti, t := range tails {
-			if pi >= 6 && ti >= 3 {
+			if pi >= 8 && ti >= 3 {
 				break // the two slow paddings: three tails only
 			}
 			c := Case{Text: p + t.text, Stream: "long_line"}
